@@ -17,6 +17,8 @@ DEP_PRECONDITIONS = {
     ('Salt', 'new_in_range'): 'bc_rand::rng_next_in_closed_range asserts lo <= hi',
     ('TagsStore', 'insert'): 'panics on conflicting registration',
     ('SealedMessage', 'decrypt'): 'bc-components 0.19 panics on an ML-KEM level mismatch between key and message',
+    ('SSKRShare', 'identifier'): 'indexes bytes 0 and 1 of the share data; SSKRShare decodes from ANY byte string, so a share shorter than 2 bytes panics',
+    ('SSKRShare', 'identifier_hex'): 'slices bytes 0..=1 of the share data: panics for a share shorter than 2 bytes',
 }
 
 
@@ -757,6 +759,25 @@ class Ledger:
             return ('D-GUARD', 'decrypt reached only when message.encapsulation_scheme() == key scheme (ML-KEM level included): no level-mismatch panic; ' + info)
         return None
 
+    def d_share_len(self, s):
+        """SSKRShare::identifier() reached only for shares of at least 2 bytes (a length test of share.data())."""
+        if s['cls'] != 'precondition' or s['what'] not in ('identifier', 'identifier_hex'):
+            return None
+        b, bi = s['body'], s['block']
+        tb = self.tb(b)
+        share = strip_sites(detry(tb.call_args(bi)[0]))
+        def data_of_share(x):
+            return x[0] == 'call' and call_name(x) in ('data', 'as_bytes', 'as_ref') and len(x[2]) == 1 and strip_sites(detry(x[2][0])) == share
+        datas = find_terms(b, tb, data_of_share)
+        if not datas:
+            return None
+        for n in (0, 1):
+            env = {('len', d): n for d in datas}
+            env.update({('len', strip_sites(detry(d))): n for d in datas})
+            if bi in reach_under(b, tb, env):
+                return None
+        return ('D-LEN', 'SSKRShare::%s reached only when the share data has at least 2 bytes (valuation of len(%s))' % (s['what'], fmt(datas[0])))
+
     def d_range_guard(self, s):
         if s['cls'] != 'precondition' or not s['what'].startswith('new_in_range'):
             return None
@@ -768,7 +789,7 @@ class Ledger:
             return ('D-GUARD', 'Salt::%s is reached only when the range is not empty (lo <= hi): the generator\'s range assertion cannot fire' % s['what'])
         return None
 
-    RULES = ['out_of_family', 'd_range_guard', 'd_len', 'd_bounds_window', 'd_size_arg', 'd_position', 'd_hasdigest', 'd_caseinv', 'd_assertion_subject', 'd_ownassert',
+    RULES = ['out_of_family', 'd_range_guard', 'd_share_len', 'd_len', 'd_bounds_window', 'd_size_arg', 'd_position', 'd_hasdigest', 'd_caseinv', 'd_assertion_subject', 'd_ownassert',
              'd_guard', 'd_total', 'd_initsome_lock', 'd_counter', 'd_preserved', 'd_refcell', 'd_decrypt_scheme', 't_reason']
 
     def discharge(self, s):
